@@ -12,6 +12,25 @@ use std::sync::atomic::{AtomicBool, Ordering};
 use std::sync::Mutex;
 use std::time::Instant;
 
+/// The repository under test: /repo, or $VERIF_REPO for sensitivity runs on a scratch worktree.
+pub fn repo_dir() -> String {
+    std::env::var("VERIF_REPO").ok().filter(|s| !s.is_empty()).unwrap_or_else(|| "/repo".to_string())
+}
+
+/// Build-output root: <verif>/target, or $VERIF_TARGET (scratch-worktree runs keep their own).
+pub fn target_dir() -> String {
+    std::env::var("VERIF_TARGET").ok().filter(|s| !s.is_empty()).unwrap_or_else(|| format!("{}/target", verif_dir()))
+}
+
+/// Where evidence and replay files go: <verif>/evidence and <verif>/replays, or below
+/// $VERIF_OUT for scratch-worktree runs (so they never replace the real ones).
+pub fn out_dir(kind: &str) -> String {
+    match std::env::var("VERIF_OUT").ok().filter(|s| !s.is_empty()) {
+        Some(o) => format!("{o}/{kind}"),
+        None => format!("{}/{kind}", verif_dir()),
+    }
+}
+
 /// Root of the verification tree: /verif, or $VERIF_HOME when ./check runs from a snapshot copy.
 pub fn verif_dir() -> String {
     std::env::var("VERIF_HOME").ok().filter(|s| !s.is_empty()).unwrap_or_else(|| "/verif".to_string())
@@ -427,17 +446,17 @@ impl Ctx {
     /// The semantic oracle lives inside the target; a crash artifact becomes the replay file.
     pub fn run_fuzz(&self, name: &str, target: &str, runs_each: u64, max_len: u32, rule: &str) -> bool {
         let t0 = Instant::now();
-        let bin = format!("{}/target/fuzz/x86_64-unknown-linux-gnu/release/{target}", verif_dir());
+        let bin = format!("{}/fuzz/x86_64-unknown-linux-gnu/release/{target}", target_dir());
         if !std::path::Path::new(&bin).exists() {
             eprintln!("INCONCLUSIVE: fuzz target {bin} not built");
             std::process::exit(2);
         }
         let procs = self.threads.clamp(1, 8);
-        let art = format!("{}/replays/", verif_dir());
+        let art = format!("{}/", out_dir("replays"));
         let _ = std::fs::create_dir_all(&art);
         let mut children = vec![];
         for i in 0..procs {
-            let corpus = format!("{}/target/fuzzcorpus/{}-{}-{}-{}", verif_dir(), self.property, target, self.seed_env(), i);
+            let corpus = format!("{}/fuzzcorpus/{}-{}-{}-{}", target_dir(), self.property, target, self.seed_env(), i);
             let _ = std::fs::remove_dir_all(&corpus);
             let _ = std::fs::create_dir_all(&corpus);
             let seed = (seed_for(self.seed, name, i as u64) % 0xffff_fffe) + 1;
@@ -451,7 +470,7 @@ impl Ctx {
                 .arg(format!("-artifact_prefix={art}fuzz-{target}-"))
                 .arg(&corpus)
                 .arg(format!("{}/fuzz/seeds/{target}", verif_dir()))
-                .current_dir(format!("{}/target", verif_dir()))
+                .current_dir(target_dir())
                 .stdin(std::process::Stdio::null())
                 .stdout(std::process::Stdio::null())
                 .stderr(std::process::Stdio::piped())
@@ -648,7 +667,7 @@ impl Ctx {
 
     pub fn report_violation(&self, check: &str, case: &Value, reason: &str) {
         self.violated.store(true, Ordering::SeqCst);
-        let dir = format!("{}/replays", verif_dir());
+        let dir = out_dir("replays");
         let _ = std::fs::create_dir_all(&dir);
         let path = format!("{dir}/{}-{}-{}.json", self.property, check, self.seed_env());
         let body = json!({
@@ -742,7 +761,7 @@ impl Ctx {
             "wall_s": (self.start.elapsed().as_secs_f64() * 1000.0).round() / 1000.0,
             "violations": if violated { 1 } else { 0 },
         });
-        let dir = format!("{}/evidence", verif_dir());
+        let dir = out_dir("evidence");
         let _ = std::fs::create_dir_all(&dir);
         let path = format!("{dir}/{}.json", self.property);
         if let Err(e) = std::fs::write(&path, serde_json::to_string_pretty(&ev).unwrap_or_default()) {
